@@ -185,6 +185,9 @@ func runMulti(c *runner.Ctx, k int) {
 			return
 		}
 		t.enc = x.enc
+		if cencgen.SizeSignalledByTrexOnly(t.cs) {
+			c.Seen("sample_size_from_trex_only_encrypted_by", fam(t.cs.Codec)+" "+x.enc+" (track of a multi-track case)")
+		}
 		encFiles[i] = enc.File()
 	}
 
